@@ -74,7 +74,13 @@ class Or(Constraint):
     def __init__(self, **data) -> None:
         super().__init__(**data)
 
-        asst = z3.Or(_constraints_to_list_of_assertions(self.list_of_constraints))
+        # each operand is the conjunction of its own assertions
+        asst = z3.Or(
+            [
+                z3.And(_get_assertions(constraint))
+                for constraint in self.list_of_constraints
+            ]
+        )
 
         self.set_z3_assertions(asst)
 
